@@ -580,6 +580,9 @@ func (w *World) routerChain(fr *frame, c *Cond, r int, ls []link, whole ast.Expr
 			if fn, ok := passThroughFuncs[name]; ok {
 				op.Opaque = w.passThrough(fn)
 			}
+			if name == "BasicAuth" {
+				op.Opaque = w.authReadsOnlyHeader()
+			}
 			w.emit(fr, c, op, pos)
 		}
 		return 0, false
@@ -1459,7 +1462,11 @@ func main() {
 			mw := o.Mw
 			if o.Opaque != "" {
 				// the source of the wrapper is not (recognisably) pass-through: not the middleware the model calls transparent
-				mw = mw + ": not a pass-through wrapper: " + o.Opaque
+				if mw == "BasicAuth" {
+					mw = "BasicAuth: not the modelled middleware: " + o.Opaque
+				} else {
+					mw = mw + ": not a pass-through wrapper: " + o.Opaque
+				}
 			}
 			if mw == "BasicAuth" && !(len(o.MwArgs) == 2 && strings.HasSuffix(o.MwArgs[0], "AUTH_SETTINGS.BASIC.Username") &&
 				strings.HasSuffix(o.MwArgs[1], "AUTH_SETTINGS.BASIC.Password")) {
